@@ -999,7 +999,19 @@ FnTr.block = _block
 
 
 def translate_function(mod, coqname, fdef, params, source, known, math_names, **kw):
-    """returns dict(text, ret, ops, params, ...) or raises Refuse"""
+    """returns dict(text, ret, ops, params, ...) or raises Refuse (fail-closed: any internal error of the
+    translator on an unforeseen AST shape is a refusal of that function, never a crash or a guess)"""
+    try:
+        return _translate_function(mod, coqname, fdef, params, source, known, math_names, **kw)
+    except (Refuse, Retry):
+        raise
+    except RecursionError:
+        raise Refuse(fdef, "expression too deeply nested")
+    except Exception as e:  # noqa
+        raise Refuse(fdef, "translator internal error %s: %s" % (type(e).__name__, e))
+
+
+def _translate_function(mod, coqname, fdef, params, source, known, math_names, **kw):
     hints = {}
     has_while = False
     for _ in range(4):
@@ -1161,7 +1173,7 @@ def gen_plain(out, prefix, modname, source, table, spec_prefix, fuel=None, gener
             FnTr.known_ops[name] = set(r["ops"])
         except Refuse as e:
             if generic:
-                out.refuse(coqname, e, "Definition %s {T : Type} `{Num T} := @%s_%s T _." % (coqname, spec_prefix, name))
+                out.refuse(coqname, e, "Definition %s {T : Type} `{Num T} := %s_%s (T:=T)." % (coqname, spec_prefix, name))
             else:
                 out.refuse(coqname, e, "Definition %s := %s_%s." % (coqname, spec_prefix, name))
             # a refused function can still be called by later ones through its alias
@@ -1242,7 +1254,7 @@ def gen_tools(out, source):
         refuse(m, "inner function %s not found" % innername)
 
     # translate
-    alias = [("tl_translate_arg", "Definition tl_translate_arg {T : Type} `{Num T} := @spec_translate_arg T _.")]
+    alias = [("tl_translate_arg", "Definition tl_translate_arg {T : Type} `{Num T} := spec_translate_arg (T:=T).")]
     try:
         cls, m, w = inner("translate", "__call__", "wrapper")
         check_params(w, [("individual", LT)], allow_star=True)
@@ -1255,8 +1267,8 @@ def gen_tools(out, source):
     except Refuse as e:
         out.refuse(alias[0][0], e, alias[0][1])
     # scale
-    alias = [("tl_scale_arg", "Definition tl_scale_arg {T : Type} `{Num T} := @spec_scale_arg T _."),
-             ("tl_scale_factor", "Definition tl_scale_factor {T : Type} `{Num T} := @spec_scale_factor T _.")]
+    alias = [("tl_scale_arg", "Definition tl_scale_arg {T : Type} `{Num T} := spec_scale_arg (T:=T)."),
+             ("tl_scale_factor", "Definition tl_scale_factor {T : Type} `{Num T} := spec_scale_factor (T:=T).")]
     try:
         cls, m, w = inner("scale", "__call__", "wrapper")
         check_params(w, [("individual", LT)], allow_star=True)
@@ -1287,7 +1299,7 @@ def gen_tools(out, source):
             if a[0] not in out.order:
                 out.refuse(a[0], e, a[1])
     # rotate
-    alias = [("tl_rotate_arg", "Definition tl_rotate_arg {T : Type} `{Num T} := @spec_rotate_arg T _.")]
+    alias = [("tl_rotate_arg", "Definition tl_rotate_arg {T : Type} `{Num T} := spec_rotate_arg (T:=T).")]
     try:
         cls, m, w = inner("rotate", "__call__", "wrapper")
         check_params(w, [("individual", LT)], allow_star=True)
@@ -1300,8 +1312,8 @@ def gen_tools(out, source):
     except Refuse as e:
         out.refuse(alias[0][0], e, alias[0][1])
     # noise
-    alias = [("tl_noise_arg", "Definition tl_noise_arg {T : Type} `{Num T} := @spec_noise_arg T _."),
-             ("tl_noise_post", "Definition tl_noise_post {T : Type} `{Num T} := @spec_noise_post T _.")]
+    alias = [("tl_noise_arg", "Definition tl_noise_arg {T : Type} `{Num T} := spec_noise_arg (T:=T)."),
+             ("tl_noise_post", "Definition tl_noise_post {T : Type} `{Num T} := spec_noise_post (T:=T).")]
     try:
         cls, m, w = inner("noise", "__call__", "wrapper")
         check_params(w, [("individual", LT)], allow_star=True)
@@ -1315,7 +1327,7 @@ def gen_tools(out, source):
 
 def gen_bin2float(out, source):
     modname = "deap.benchmarks.binary.bin2float"
-    alias = [("bin_bin2float_arg", "Definition bin_bin2float_arg {T : Type} `{Num T} := @spec_bin2float_arg T _.")]
+    alias = [("bin_bin2float_arg", "Definition bin_bin2float_arg {T : Type} `{Num T} := spec_bin2float_arg (T:=T).")]
     try:
         tree = ast.parse(source)
         math_names, mathmod, numpy_name = module_imports(tree)
@@ -1351,7 +1363,7 @@ def gen_movingpeaks(out, source):
     math_names, mathmod, numpy_name = module_imports(tree)
     cls = find_class(tree, "MovingPeaks")
     # __call__
-    alias = "Definition mp_call {T : Type} `{Num T} := @spec_mp_call T _."
+    alias = "Definition mp_call {T : Type} `{Num T} := spec_mp_call (T:=T)."
     try:
         if cls is None:
             refuse("MovingPeaks", "class not found")
@@ -1374,12 +1386,17 @@ def gen_movingpeaks(out, source):
     except Refuse as e:
         out.refuse("mp_call", e, alias)
     # changePeaks: peak-count arithmetic
-    alias = "Definition mp_cp_count {T : Type} `{Num T} := @spec_mp_cp_count T _."
+    alias = "Definition mp_cp_count {T : Type} `{Num T} := spec_mp_cp_count (T:=T)."
     try:
         m = find_method(cls, "changePeaks") if cls is not None else None
         if m is None:
             refuse("MovingPeaks", "changePeaks not found")
-        text = extract_change_count(m, source, math_names, mathmod)
+        try:
+            text = extract_change_count(m, source, math_names, mathmod)
+        except Refuse:
+            raise
+        except Exception as e:  # noqa
+            refuse(m, "translator internal error %s: %s" % (type(e).__name__, e))
         out.add("mp_cp_count", text, {"python": modname + ".MovingPeaks.changePeaks (number of peaks)", "exact": True})
     except Refuse as e:
         out.refuse("mp_cp_count", e, alias)
@@ -1514,10 +1531,26 @@ def translate_all(repo):
         return open(os.path.join(base, name)).read()
     gen_plain(out, "bm", "deap.benchmarks", src("__init__.py"), BENCH, "spec_bm")
     gen_plain(out, "bin", "deap.benchmarks.binary", src("binary.py"), BINARY, "spec_bin", fuel=FUEL, generic=False)
-    gen_bin2float(out, src("binary.py"))
+    def guarded(fn, source, aliases):
+        """a crash of the translator on an unforeseen AST shape refuses the definitions of that group"""
+        try:
+            fn(out, source)
+        except SyntaxError:
+            raise
+        except Exception as e:  # noqa
+            for name, spec in aliases:
+                if name not in out.order:
+                    out.refuse(name, "translator internal error %s: %s" % (type(e).__name__, e),
+                               "Definition %s {T : Type} `{Num T} := %s (T:=T)." % (name, spec))
+    guarded(gen_bin2float, src("binary.py"), [("bin_bin2float_arg", "spec_bin2float_arg")])
     gen_plain(out, "gp", "deap.benchmarks.gp", src("gp.py"), GP, "spec_gp")
-    gen_movingpeaks(out, src("movingpeaks.py"))
-    gen_tools(out, src("tools.py"))
+    guarded(gen_movingpeaks, src("movingpeaks.py"),
+            [("mp_cone", "spec_mp_cone"), ("mp_sphere", "spec_mp_sphere"), ("mp_function1", "spec_mp_function1"),
+             ("mp_call", "spec_mp_call"), ("mp_cp_count", "spec_mp_cp_count")])
+    guarded(gen_tools, src("tools.py"),
+            [("tl_translate_arg", "spec_translate_arg"), ("tl_scale_factor", "spec_scale_factor"),
+             ("tl_scale_arg", "spec_scale_arg"), ("tl_rotate_arg", "spec_rotate_arg"),
+             ("tl_noise_arg", "spec_noise_arg"), ("tl_noise_post", "spec_noise_post")])
     text = HEADER + "\n".join(out.defs)
     meta = {"functions": out.meta, "refused": out.refused, "order": out.order}
     text += "\n(* META %s *)\n" % json.dumps({"refused": out.refused}, sort_keys=True)
